@@ -22,7 +22,7 @@ Paths == UNION { [1..n -> SegAlphabet] : n \in 0..MaxSegs }
 Requests == IF LoopInstance
             THEN [path : Paths, size : {"zero", "ok"}, token : {"notneeded"}, mime : {"nolist"}, deleteOn : {TRUE}, fault : {"none"}]
             ELSE [path : Paths, size : {"zero", "ok", "over"}, token : {"notneeded", "right", "wrong", "missing"},
-             mime : {"nolist", "allowed", "refused", "emptylist"}, deleteOn : BOOLEAN, fault : {"none", "partial", "perm", "dropbox"}]   \* dropbox: the directories can be written and searched but not read (mode 0300): storing works as ever
+             mime : {"nolist", "allowed", "refused", "emptylist"}, deleteOn : BOOLEAN, fault : {"none", "partial", "perm", "dropbox", "logfail"}]   \* logfail: every write to the server's log fails (log disk full, a stream that cannot encode the request line) - the log is no part of the outcome; dropbox: the directories can be written and searched but not read (mode 0300): storing works as ever
 VARIABLES slot, req, out
 vars == <<slot, req, out>>
 Exists(n) == n \in Dirs \cup Files \/ (n \in Slots /\ slot[n].k # "absent")
